@@ -423,6 +423,27 @@ def main(argv):
         "wall_s": round(time.time() - t0, 2),
         "violations": len(violations),
     }
+    # thorough tier: mutation self-test (DESIGN.md 4.7) - deliberately broken variants of a scratch copy must turn
+    # their obligation from proved to refuted; equivalent rewrites must stay quiet.  A failure here is a weakness of
+    # the machinery (reported in evidence and on stderr), never a VIOLATION of feos.
+    if a.tier == "thorough" and not alt and not a.unit and os.environ.get("VERIF_NO_SELFTEST") != "1":
+        mj = os.path.join(bdir, "mutants.json")
+        mp = subprocess.run([os.path.join(ROOT, "tools/mutants.py"), "--property", prop, "--repo", a.repo, "--json", mj],
+                            capture_output=True, text=True)
+        try:
+            mres = json.load(open(mj))
+        except (OSError, json.JSONDecodeError):
+            mres = []
+        ev["coverage"]["mutation_self_test"] = {
+            "breaking_killed": sum(1 for m in mres if m["kind"] == "breaking" and m["ok"]),
+            "breaking_survived": [m["id"] for m in mres if m["kind"] == "breaking" and not m["ok"]],
+            "harmless_quiet": sum(1 for m in mres if m["kind"] == "harmless" and m["ok"]),
+            "harmless_false_alarm": [m["id"] for m in mres if m["kind"] == "harmless" and not m["ok"] and not m.get("undecided")],
+            "harmless_undecided": [m["id"] for m in mres if m["kind"] == "harmless" and m.get("undecided")],
+        }
+        for m in mres:
+            if not m["ok"]:
+                print(f"SELF-TEST property={prop} mutant={m['id']} kind={m['kind']}: not as expected (weak obligation or brittle proof)", file=sys.stderr)
     os.makedirs(os.path.join(out_root, "evidence"), exist_ok=True)
     json.dump(ev, open(os.path.join(out_root, "evidence", prop + ".json"), "w"), indent=1)
 
